@@ -9,7 +9,7 @@ import BtcVerif.Props.C15
 import BtcVerif.Props.C16
 import BtcVerif.Props.C18
 import BtcVerif.Proofs.ScriptEvalInv
-import Driver.C06
+import BtcVerif.Model.ScriptEnvReal
 
 namespace BtcVerif.Concrete
 open BtcVerif BtcVerif.Crypto
@@ -31,19 +31,17 @@ theorem c10_check_roundtrip_sha256 (v : UInt8) (p : Bytes) :
       Model.Base58.new hash256 (Model.Base58.str hash256 d) = .ok ⟨v, p⟩ :=
   C10.check_roundtrip hash256 (fun x => by rw [hash256_length]; omega) v p
 
-/-- the three real hash primitives of the script interpreter -/
-def realHashes : Spec.Script.Hashes := { sha1 := sha1, ripemd160 := ripemd160, sha256 := sha256 }
-
-/-- C06/C07: outputs of the real hash opcodes fit a stack element (20, 20 and 32 ≤ 520 bytes) -/
-theorem hashesOK_real : Model.ScriptEval.HashesOK realHashes := by
+/-- C06/C07: outputs of the real hash opcodes fit a stack element (20, 20 and 32 ≤ 520 bytes), for the
+    record of hash primitives the concrete environment (`Model.ScriptEval.Real.realHashes`, the one the
+    C06/C07 model driver runs with) is built from -/
+theorem hashesOK_real : Model.ScriptEval.HashesOK Model.ScriptEval.Real.realHashes := by
   intro x
-  simp [realHashes, sha1_length, ripemd160_length, sha256_length]
-
-/-- … and this is the record the C06/C07 model driver runs with -/
-theorem hashesOK_driver : Model.ScriptEval.HashesOK Driver.C06.concreteHashes := hashesOK_real
+  simp [Model.ScriptEval.Real.realHashes, sha1_length, ripemd160_length, sha256_length]
 
 /-- derived primitives of that record: HASH160 is 20 bytes, HASH256 is 32 bytes -/
-theorem real_hash160_length (x : Bytes) : (realHashes.hash160 x).length = 20 := ripemd160_length _
-theorem real_hash256_length (x : Bytes) : (realHashes.hash256 x).length = 32 := sha256_length _
+theorem real_hash160_length (x : Bytes) : (Model.ScriptEval.Real.realHashes.hash160 x).length = 20 :=
+  ripemd160_length _
+theorem real_hash256_length (x : Bytes) : (Model.ScriptEval.Real.realHashes.hash256 x).length = 32 :=
+  sha256_length _
 
 end BtcVerif.Concrete
